@@ -493,7 +493,9 @@ impl Ord for Value {
         match (self, other) {
             (Value::Int32(a), Value::Int32(b)) => a.cmp(b),
             (Value::Int64(a), Value::Int64(b)) => a.cmp(b),
-            (Value::Float64(a), Value::Float64(b)) => a.partial_cmp(b).unwrap_or(Ordering::Equal),
+            // total_cmp is Equal exactly when the bit patterns are equal, which keeps Ord
+            // consistent with PartialEq/Hash (both compare bits) and transitive through NaN.
+            (Value::Float64(a), Value::Float64(b)) => a.total_cmp(b),
             (Value::String(a), Value::String(b)) => a.cmp(b),
             (Value::Bool(a), Value::Bool(b)) => a.cmp(b),
             (Value::Null, Value::Null) => Ordering::Equal,
